@@ -2,6 +2,9 @@ CONSTANT MaxLang = 2
 CONSTANT Shapes = {"empty", "short", "edge"}
 CONSTANT RuleShapes = {"short", "edge"}
 CONSTANT P2Shapes = {"short"}
+CONSTANT ShapedL = {{0}}
+CONSTANT ShapedShapes = {"short"}
+CONSTANT ShapedP2 = {FALSE}
 INIT Init
 NEXT Next
 INVARIANT ViewShape
@@ -9,4 +12,5 @@ INVARIANT Wrapping
 INVARIANT Distinct
 INVARIANT RuleShape
 INVARIANT FlagIrrelevant
+INVARIANT OriginalBytes
 POSTCONDITION AllCasesVisited
